@@ -153,6 +153,7 @@ impl Model {
             }
             writeln!(&mut left_wtr)?;
         }
+        left_wtr.flush()?;
 
         // right
         let mut left_features = HashMap::new();
@@ -176,6 +177,7 @@ impl Model {
             }
             writeln!(&mut right_wtr)?;
         }
+        right_wtr.flush()?;
 
         let mut cost_wtr = BufWriter::new(cost_wtr);
         for (left_feat_id, hm) in self
@@ -195,6 +197,7 @@ impl Model {
                 writeln!(&mut cost_wtr, "{left_feat_str}/{right_feat_str}\t{cost}")?;
             }
         }
+        cost_wtr.flush()?;
         Ok(())
     }
 
@@ -338,6 +341,12 @@ impl Model {
                 )?;
             }
         }
+
+        // A BufWriter dropped without flush() discards write errors.
+        lexicon_wtr.flush()?;
+        unk_handler_wtr.flush()?;
+        connector_wtr.flush()?;
+        user_lexicon_wtr.flush()?;
 
         Ok(())
     }
